@@ -78,6 +78,11 @@ func vlenDecision(p *Program, f *ssa.Function, fixedStore, posStore *ssa.Store) 
 		}
 	}
 	if iff == nil {
+		// the flag-less form: a scan over the element sizes that leaves with the variable-size layout at the
+		// first size that differs, and falls out of the loop into the fixed-size layout
+		if why, handled := vlenScanDecision(p, f, fixedStore, posStore); handled {
+			return why
+		}
 		return "cannot find the branch that chooses between the fixed-size and the variable-size layout"
 	}
 	cond := iff.Cond
@@ -532,4 +537,125 @@ func boolFoldOverSizes(p *Program, f *ssa.Function, flag *ssa.Phi) string {
 		return "the layout flag never changes"
 	}
 	return ""
+}
+
+// vlenScanDecision: the variable-size layout is stored inside a loop over the elements, on the "differs"
+// side of a comparison of the current element's size with one reference size taken from the same size
+// list before the loop, and that side never reaches the fixed-size store; the fixed-size store lies after
+// the loop and stores that reference size.
+func vlenScanDecision(p *Program, f *ssa.Function, fixedStore, posStore *ssa.Store) (string, bool) {
+	// the variable-size store sits in an exit block of the loop: the loop is the one of the branch above it
+	var header *ssa.BasicBlock
+	for d := posStore.Block(); d != nil && header == nil; d = d.Idom() {
+		header = loopHeaderOf(d)
+	}
+	if header == nil || loopHeaderOf(fixedStore.Block()) == header {
+		return "", false
+	}
+	// sizes: values that are a length of an element, or an element of a local list filled with lengths
+	e := newEval(p)
+	isSizeList := func(v ssa.Value) bool {
+		mk, ok := v.(*ssa.MakeSlice)
+		if !ok {
+			return false
+		}
+		okAll, n := true, 0
+		for _, ref := range *mk.Referrers() {
+			ia, ok := ref.(*ssa.IndexAddr)
+			if !ok {
+				continue
+			}
+			for _, r2 := range *ia.Referrers() {
+				if st, ok := r2.(*ssa.Store); ok && st.Addr == ssa.Value(ia) {
+					n++
+					if !strings.Contains(e.eval(st.Val).String(), "len(") {
+						okAll = false
+					}
+				}
+			}
+		}
+		return okAll && n > 0
+	}
+	isSize := func(v ssa.Value) bool {
+		v = stripConv(v)
+		if strings.Contains(e.eval(v).String(), "len(") {
+			return true
+		}
+		if ld, ok := v.(*ssa.UnOp); ok && ld.Op == token.MUL {
+			if ia, ok := ld.X.(*ssa.IndexAddr); ok && isSizeList(ia.X) {
+				return true
+			}
+		}
+		return false
+	}
+	// the comparison that controls the variable-size store
+	var ref ssa.Value
+	found := false
+	for d := posStore.Block(); d != nil && d != header.Idom(); d = d.Idom() {
+		id := d.Idom()
+		if id == nil {
+			break
+		}
+		iff, ok := lastInstr(id).(*ssa.If)
+		if !ok || len(d.Preds) != 1 {
+			continue
+		}
+		bo, ok := iff.Cond.(*ssa.BinOp)
+		if !ok || (bo.Op != token.NEQ && bo.Op != token.EQL) {
+			continue
+		}
+		differs := 0
+		if bo.Op == token.EQL {
+			differs = 1
+		}
+		if id.Succs[differs] != d {
+			continue
+		}
+		inLoop := func(v ssa.Value) bool {
+			in, ok := v.(ssa.Instruction)
+			return ok && loopHeaderOf(in.Block()) == header
+		}
+		switch {
+		case isSize(bo.X) && inLoop(stripConv(bo.X)) && isSize(bo.Y) && !inLoop(stripConv(bo.Y)):
+			ref, found = bo.Y, true
+		case isSize(bo.Y) && inLoop(stripConv(bo.Y)) && isSize(bo.X) && !inLoop(stripConv(bo.X)):
+			ref, found = bo.X, true
+		}
+	}
+	if !found {
+		return "the variable-size layout is chosen inside a loop, but not under a comparison of the current element's size with a reference size taken before the loop", true
+	}
+	// the differing side never reaches the fixed-size store
+	if reachableFrom(posStore.Block(), nil)[fixedStore.Block()] {
+		return "after a size that differs was found the fixed-size layout can still be stored", true
+	}
+	// the fixed size stored is the reference size
+	if stripConv(fixedStore.Val) != stripConv(ref) {
+		return "the fixed size stored is not the size every element was compared with", true
+	}
+	// the loop is a plain range/index loop: an index from a constant start in steps of one
+	okLoop := false
+	for _, in := range header.Instrs {
+		ph, ok := in.(*ssa.Phi)
+		if !ok || !isIntType(ph.Type()) {
+			continue
+		}
+		step := false
+		for i, ed := range ph.Edges {
+			if header.Dominates(header.Preds[i]) {
+				if bo, ok := ed.(*ssa.BinOp); ok && bo.Op == token.ADD && bo.X == ssa.Value(ph) {
+					if k, isK := constInt(bo.Y); isK && k == 1 {
+						step = true
+					}
+				}
+			}
+		}
+		if step {
+			okLoop = true
+		}
+	}
+	if !okLoop {
+		return "the scan over the element sizes does not advance by one element per iteration", true
+	}
+	return "", true
 }
